@@ -122,7 +122,14 @@ impl StringPoolBuilder {
         for (length, refcount) in self.lengths_and_refcounts.into_iter() {
             let mut buffer = vec![0u8; length as usize];
             reader.read_exact(&mut buffer)?;
-            strings.push((self.codepage.decode(&buffer), refcount));
+            // An entry with a refcount of zero is a free slot; if a malformed
+            // file gives it text anyway, the text is unused.
+            let string = if refcount == 0 {
+                String::new()
+            } else {
+                self.codepage.decode(&buffer)
+            };
+            strings.push((string, refcount));
         }
         Ok(StringPool {
             codepage: self.codepage,
@@ -243,18 +250,18 @@ impl StringPool {
     }
 
     /// Decrements the refcount of a string in the pool.
+    ///
+    /// A malformed file can contain references to entries beyond the end of
+    /// the pool, or to entries whose refcount is zero (`get()` reads those as
+    /// the empty string); there is nothing to release for such a reference.
     pub fn decref(&mut self, string_ref: StringRef) {
         let index = string_ref.index();
         if index >= self.strings.len() {
-            panic!(
-                "decref: string_ref {} invalid, pool has only {} entries",
-                string_ref.number(),
-                self.strings.len()
-            );
+            return;
         }
         let (ref mut string, ref mut refcount) = self.strings[index];
         if *refcount < 1 {
-            panic!("decref: string refcount is already zero");
+            return;
         }
         self.is_modified = true;
         *refcount -= 1;
